@@ -559,6 +559,17 @@ func specRun(c Case, out []string) (fails []oracleFailure, taints map[string]int
 					tainted[cid] = true
 				}
 			}
+		case "sparse":
+			for _, x := range rest[1:] {
+				if v, err := strconv.ParseUint(x, 10, 32); err == nil {
+					if _, ok := sc.rows[uint32(v)]; !ok {
+						sc.rows[uint32(v)] = map[string][]byte{}
+					}
+				}
+			}
+			if cid == "p" {
+				emittedSince["p"]++
+			}
 		case "count":
 		default:
 			t, ok := sc.txns[rest[0]]
@@ -784,6 +795,9 @@ func specCommit(cid string, sc *specColl, t *specTxn, o string, i int,
 	if !strings.HasPrefix(o, "committed") {
 		fail("values", "line %d: commit answered %s", i, clip(o, 80))
 		return
+	}
+	if strings.Contains(o, "!dropped[") {
+		fail("trigger", "line %d: a trigger that had been dropped was called: %s", i, clip(o, 160))
 	}
 	if len(t.insFailed) > 0 {
 		taint(cid, "D9")
